@@ -581,5 +581,17 @@ PROPS["C13"]["explanation"] += " (ATTACHEXCL) VSattach replaces the shared acces
 PROPS["C13"]["rules"] = PROPS["C13"]["rules"] + [rules_handles.rule_group_check_is_not_lookup]
 PROPS["C13"]["explanation"] += " (GROUPONLY) a public routine that classifies an id with HAatom_group also looks it up in the atom table."
 
+PROPS["C11"]["rules"] = PROPS["C11"]["rules"] + [rules_ann.rule_reserve_iff_terminated]
+PROPS["C11"]["explanation"] += " (RESERVENUL) the annotation readers reserve a buffer byte exactly on the paths that store a terminator."
+
+PROPS["C11"]["rules"] = PROPS["C11"]["rules"] + [rules_ann.rule_arm_globals]
+PROPS["C11"]["explanation"] += " (ARMGLOBAL) each per-kind cursor variable of the DFAN interface is used under the same arm of the label/description test everywhere."
+
+PROPS["C12"]["rules"] = PROPS["C12"]["rules"] + [rules_dd.rule_null_slots_skipped]
+PROPS["C12"]["explanation"] += " (NULLSKIP) every descriptor walk of HTIfind_dd that can report a match steps over DFTAG_NULL slots first."
+
+PROPS["C20"]["rules"] = PROPS["C20"]["rules"] + [rules_limits.rule_counter_wrap_guard]
+PROPS["C20"]["explanation"] += " (COUNTERWRAP) every increment of a 16-bit counter field is reached only on paths that compared the field with a limit."
+
 NOT_APPLICABLE = {}
 
